@@ -78,8 +78,8 @@ P = {
         text="Partial. Decides four structural clauses: exclude_unset reaches the field strategies only as `option and support_fields_set(cls)`, forces the omitting strategy, and a field is emitted iff its name is in the tracked set; with_fields_set wraps __new__/__init__/__setattr__ once and each wrapper updates the set as documented; set_fields/unset_fields/fields_set/replace operate on the live set; the deserializer passes only present keys to the (wrapped) constructor and cannot take the __dict__-filling bypass for a tracked class. The contents of the set after an arbitrary history of calls on user classes is a runtime quantity and is NOT decided.",
     ),
     "C16": dict(
-        technique="ast static analysis: one-sorter-three-sites rule, name/ordering getter agreement, override precedence idiom table",
-        text="Decides only that the three views pass identically-named elements built in the same sequence through the one ordering function, and that class-level overrides are looked up with subclass precedence. The permutation computed by sort_by_order is a runtime algorithm and is not decided.",
+        technique="ast static analysis: one-sorter-three-sites rule, name/ordering getter agreement, override precedence idiom table, conservation analysis of sort_by_order (one bucket per element on every path, guarded by-name buckets, no re-bucketing, drain order)",
+        text="Decides only that the three views pass identically-named elements built in the same sequence through the one ordering function, that class-level overrides are looked up with subclass precedence, and that sort_by_order neither loses nor duplicates an element and has the documented shape (ascending order values, declaration order within a value, before / element / after). Equality of the permutation for every specification (and cyclic after/before specifications) is not decided.",
     ),
     "C17": dict(
         technique="ast static analysis: ref-decision parity between extractor and builder, single-writer / clash-refusal rule, shared entry path, Optional[bool] defaulting rule, declared-dialect table",
